@@ -298,17 +298,24 @@ Definition record_value_top (R v : nat) (s : state) (pl : list fate) : res :=
   end.
 
 (* ------------------------------------------------------------------ _get_call_node *)
+(** _resolve_job_main_thread: where a job replayed from a recorded call node (ultimate reduction or CSE)
+    gets its subtree tasks from.  [HOwn]: as originally shipped (a CSE hit with check_valid=full keeps only its
+    own task, otherwise the rows of the call node); [HBackend]: always own task + recorded rows;
+    [HGuarded]: own task + recorded rows only if the parent job was not itself served from the cache. *)
+Inductive hitmode := HOwn | HBackend | HGuarded.
+
 Record cfg := mkcfg {
   c_rcn : list step;          (* record_call_node *)
   c_own : bool;               (* _get_call_node also requires the node's own task hash among its subtree rows *)
-  c_hit_backend : bool;       (* _resolve_job_main_thread: every job replayed from a call node takes its subtree
-                                 tasks from the backend (plus its own task) *)
+  c_hit : hitmode;            (* _resolve_job_main_thread: subtree tasks of a replayed job *)
   c_retries : nat             (* db_retries *)
 }.
-Definition shipped (R : nat) : cfg := mkcfg rcn_shipped false false R.
-Definition fixed (R : nat) : cfg := mkcfg rcn_fixed true true R.
+Definition shipped (R : nat) : cfg := mkcfg rcn_shipped false HOwn R.
+Definition fixed (R : nat) : cfg := mkcfg rcn_fixed true HBackend R.
 (** the lookup and the scheduler repaired, record_call_node as shipped *)
-Definition mixed (R : nat) : cfg := mkcfg rcn_shipped true true R.
+Definition mixed (R : nat) : cfg := mkcfg rcn_shipped true HBackend R.
+(** as [mixed], but a replayed job skips the backend query when its parent was served from the cache *)
+Definition guarded (R : nat) : cfg := mkcfg rcn_shipped true HGuarded R.
 
 Definition current (own : bool) (d : db) (rg : list nat) (c : tree) : bool :=
   subset (rows d c) rg && (if own then memn (t_task c) (rows d c) else true).
@@ -329,7 +336,9 @@ Inductive event :=
 | EHitUlt (t : nat) (a : list nat)   (* a check_valid="shallow" job asks the cache (ultimate reduction) *)
 | EHitCSE (j : nat) (full : bool)    (* a job is replayed from the call node of finished job j of the same
                                         execution (CSE); full: its check_valid is "full" *)
-| EImport (roots : list tree).       (* put_records of these call nodes and everything they own *)
+| EImport (roots : list tree)        (* put_records of these call nodes and everything they own *)
+| EHitUltC (t : nat) (a : list nat)  (* as EHitUlt / EHitCSE, for a job whose parent job was itself served from the cache *)
+| EHitCSEC (j : nat) (full : bool).  (* (a single-reduction hit: the parent re-evaluates its children and records a call node) *)
 
 Fixpoint lookup_jobs (js : list (tree * list nat)) (ks : list nat) : option (list (tree * list nat)) :=
   match ks with
@@ -343,10 +352,13 @@ Fixpoint lookup_jobs (js : list (tree * list nat)) (ks : list nat) : option (lis
 Definition set_jobs (s : state) (js : list (tree * list nat)) := mkst (com s) (pen s) (att s) js (reg s) (alive s).
 
 (** subtree tasks of a job replayed from call node [c] *)
-Definition hit_subtree (g : cfg) (cse full : bool) (s : state) (c : tree) : list nat :=
+Definition hit_subtree (g : cfg) (cse full parent_cached : bool) (s : state) (c : tree) : list nat :=
   let from_backend := filter (fun t => memn t (reg s)) (rows (vis s) c) in
-  if c_hit_backend g then t_task c :: from_backend
-  else if cse && full then [t_task c] else from_backend.
+  match c_hit g with
+  | HBackend => t_task c :: from_backend
+  | HGuarded => if parent_cached then [t_task c] else t_task c :: from_backend
+  | HOwn => if cse && full then [t_task c] else from_backend
+  end.
 
 (** owned Value records (result, task, arguments) are transferred whether or not the CallNode
     record itself is new ([has_records] filters per record id) *)
@@ -392,13 +404,24 @@ Definition step_event (g : cfg) (s : state) (e : event) : state :=
         end
     | EHitUlt t a =>
         match get_call_node (c_own g) (vis s) t a (reg s) with
-        | Some c => set_jobs s (jobs s ++ [(c, hit_subtree g false false s c)])
+        | Some c => set_jobs s (jobs s ++ [(c, hit_subtree g false false false s c)])
         | None => s
         end
     | EHitCSE j full =>
         match nth_error (jobs s) j with
         | Some (c, _) =>
-            if memt c (nodes (vis s)) then set_jobs s (jobs s ++ [(c, hit_subtree g true full s c)]) else s
+            if memt c (nodes (vis s)) then set_jobs s (jobs s ++ [(c, hit_subtree g true full false s c)]) else s
+        | None => s
+        end
+    | EHitUltC t a =>
+        match get_call_node (c_own g) (vis s) t a (reg s) with
+        | Some c => set_jobs s (jobs s ++ [(c, hit_subtree g false false true s c)])
+        | None => s
+        end
+    | EHitCSEC j full =>
+        match nth_error (jobs s) j with
+        | Some (c, _) =>
+            if memt c (nodes (vis s)) then set_jobs s (jobs s ++ [(c, hit_subtree g true full true s c)]) else s
         | None => s
         end
     | _ => s
